@@ -106,6 +106,17 @@ def build(ctx):
         ctx.ground(f"sdf.{tabname}/v2000_columns", ok, clause=f"the {label} field table has the published V2000 columns",
                    detail=None if ok else {"table": cols, "standard": std}, witness=None if ok else {"table": cols})
 
+    def loops_fallback():
+        rng_ = np.random.default_rng(5)
+        for n_ in (1, 2, 5, 17):
+            for fmt_ in ("xyz", "sdf"):
+                pos_ = np.cumsum(rng_.uniform(0.9, 1.5, (n_, 3)), axis=0)
+                ok_, obs_ = native_roundtrip(["C", "O", "N", "H", "S"][: max(1, min(5, n_))] * (n_ // 5 + 1), pos_.tolist() * 1, fmt_) if False else \
+                    native_roundtrip((["C", "O", "N", "H", "S"] * 4)[:n_], pos_.tolist(), fmt_)
+                if not ok_:
+                    return {"input": {"natoms": n_, "format": fmt_}, "observed": obs_}
+        return None
+
     # ---------------------------------------------------------------- F: loops are maps
     for fn, ordinal, acc, what in ((f_pxyz, 0, {"elements", "positions"}, "parse_xyz_string: one atom per line"),
                                    (f_toxyz, 0, {"lines"}, "to_xyz_string: one line per atom"),
@@ -113,13 +124,12 @@ def build(ctx):
                                    (f_pbonds, 0, {"bond_data"}, "parse_bond_lines: one record per line"),
                                    (f_psdf, 0, {"results"}, "parse_sdf_contents: one molecule per record, in order")):
         ok, detail = frames.map_loop(fn.node, ordinal, acc)
-        ctx.ground(f"{fn.qualname.split('chmpy.')[1]}/loop{ordinal}/is_map", ok, tag="F", clause=f"{what}: iterations are independent (only appends to {sorted(acc)})",
-                   detail=detail, witness=detail.get("problems"), fn=fn)
+        ctx.pattern(f"{fn.qualname.split('chmpy.')[1]}/loop{ordinal}/is_map", ok, clause=f"{what}: iterations are independent (only appends to {sorted(acc)})",
+                    detail=detail, fn=fn, fallback=loops_fallback)
     # to_sdf_string: atom loop is loop 0 (for i in range(num_atoms)), bond loop 1
     for ordinal, acc in ((0, {"atom_lines"}), (1, {"bond_lines"})):
         ok, detail = frames.map_loop(f_sdfstr.node, ordinal, acc)
-        ctx.ground(f"fmt.sdf.to_sdf_string/loop{ordinal}/is_map", ok, tag="F", clause="one line per atom / bond index", detail=detail,
-                   witness=detail.get("problems"), fn=f_sdfstr)
+        ctx.pattern(f"fmt.sdf.to_sdf_string/loop{ordinal}/is_map", ok, clause="one line per atom / bond index", detail=detail, fn=f_sdfstr, fallback=loops_fallback)
 
     # ---------------------------------------------------------------- XYZ
     x, y, zc = reals("x", 3)
